@@ -573,7 +573,8 @@ let lifel (rest : string) : string =
     | LinkLife.RRemoteDetached -> "LinkStateError(RemoteDetached)" | LinkLife.RRemoteClosed -> "LinkStateError(RemoteClosed)"
     | LinkLife.RRemoteClosedWithError -> "LinkStateError(RemoteClosedWithError(Error))"
     | LinkLife.RDetachedByRemote -> "DetachedByRemote" | LinkLife.RClosedByRemote -> "ClosedByRemote"
-    | LinkLife.RExpectImmediateDetach -> "LinkStateError(ExpectImmediateDetach)" in
+    | LinkLife.RExpectImmediateDetach -> "LinkStateError(ExpectImmediateDetach)"
+    | LinkLife.RIllegalState -> "LinkStateError(IllegalState)" in
   let derr_str = function
     | LinkLife.RRemoteClosedWithError -> "RemoteClosedWithError(Error)" | e -> err_str e in
   let sent = ref 0 in
